@@ -8,7 +8,7 @@
     regenerated from the engine (coq/gen/ZobristTables.v). *)
 From Coq Require Import ZArith NArith List Bool.
 From Texel Require Import Chess.Types Chess.Position Chess.PositionSpec Chess.PositionProofs3
-  Chess.PositionTheorems Chess.Fen Chess.PositionInst Chess.PositionExamples Chess.PositionSources Chess.PositionB Chess.PositionSerialize.
+  Chess.PositionTheorems Chess.Fen Chess.PositionInst Chess.PositionExamples Chess.PositionSources Chess.PositionB Chess.PositionSerialize Chess.PositionNoUB.
 Import ListNotations.
 Local Open Scope N_scope.
 
@@ -157,12 +157,24 @@ Theorem C02_no_ub_partial : forall zk p s,
   castleSqMask s < 16 /\ N.land (N.land (castleMask p) (castleSqMask (mfrom (mkMove s s 0)))) (castleSqMask s) < 16.
 Proof. exact index_ranges. Qed.
 Print Assumptions C02_no_ub_partial.
-Definition C02_no_ub_statement : Prop :=
-  forall zk p m, Consistent zk p -> moveOk p m = true -> (castleMask p < 16) -> epInb (epSquare p) = true ->
-    intsFit p = true -> (halfMoveClock p < INT_MAX)%Z -> (fullMoveCounter p < INT_MAX)%Z ->
-    fitsInt (matId (fst (makeMove zk p m))) = true ->
-    intsFit (fst (makeMove zk p m)) = true /\ epInb (epSquare (fst (makeMove zk p m))) = true /\
-    castleMask (fst (makeMove zk p m)) < 16.
+(** makeMove: every [int] field of the result fits 32 bits and every table index is in range,
+    provided the material identifier fits (which C02_matid_range characterises) and the
+    counters are below INT_MAX (the FEN reader accepts 2147483647, for which `halfMoveClock++`
+    overflows); the scalar fields of the result are given explicitly *)
+Theorem C02_no_ub : forall zk, emptyKeysZero zk -> forall p m,
+  Consistent zk p -> moveOk p m = true -> epInb (epSquare p) = true -> intsFit p = true ->
+  (halfMoveClock p < INT_MAX)%Z -> (fullMoveCounter p < INT_MAX)%Z ->
+  let q := fst (makeMove zk p m) in
+  fitsInt (matId q) = true ->
+  intsFit q = true /\ epInb (epSquare q) = true /\ castleMask q < 16 /\
+  Forall (fun pc => pc < 13) (squares q) /\ length (squares q) = 64%nat /\ length (pieceTypeBB q) = 13%nat /\
+  mfrom m < 64 /\ mto m < 64.
+Proof. exact makeMove_no_ub. Qed.
+Print Assumptions C02_no_ub.
+
+Theorem C02_makeMove_scalars : forall zk p m, madeScalarsOk p m (fst (makeMove zk p m)).
+Proof. exact makeMove_scalars. Qed.
+Print Assumptions C02_makeMove_scalars.
 
 (** serialisation: false outside 8-bit / 16-bit counters (finding F6) *)
 Theorem C02_serialize_roundtrip_refuted :
@@ -180,10 +192,22 @@ Theorem C02_serialize_roundtrip : forall zk, emptyKeysZero zk -> forall p,
 Proof. exact serialize_roundtrip. Qed.
 Print Assumptions C02_serialize_roundtrip.
 
-(** FEN: statement (not yet proved in general) and the instance for the start position *)
+(** FEN: statement (not yet proved in general: needs the parsing proof of the placement rows and
+    num2Str/stoi; every FEN round trip of the correspondence run is compared instead) and the
+    instance for the start position *)
+Definition fenAcceptable (zk : zkeys) (p : position) : Prop :=
+  Consistent zk p /\ countPiece p WKING = 1%nat /\ countPiece p BKING = 1%nat /\
+  (forall s, s < 8 \/ 56 <= s < 64 -> getPiece p s <> WPAWN /\ getPiece p s <> BPAWN) /\
+  inCheck (setWhiteMove zk p (negb (whiteMove p))) = false /\
+  castleMask p < 16 /\ fixCastleMask p (castleMask p) = castleMask p /\
+  (0 <= halfMoveClock p <= INT_MAX)%Z /\ (0 <= fullMoveCounter p <= INT_MAX)%Z /\
+  (epSquare p = (-1)%Z \/
+   (0 <= epSquare p < 64)%Z /\ getPiece p (Z.to_N (epSquare p)) = EMPTY /\
+   (if whiteMove p then Z.shiftr (epSquare p) 3 = 5%Z /\ getPiece p (Z.to_N (epSquare p) - 8) = BPAWN
+    else Z.shiftr (epSquare p) 3 = 2%Z /\ getPiece p (Z.to_N (epSquare p) + 8) = WPAWN)).
 Definition C02_fen_roundtrip_statement : Prop :=
-  forall zk p, emptyKeysZero zk -> Consistent zk p -> (0 <= halfMoveClock p)%Z -> (0 <= fullMoveCounter p)%Z ->
-    (exists s, readFEN zk s = FenOk p) -> readFEN zk (toFEN p) = FenOk p.
+  forall zk p, emptyKeysZero zk -> fenAcceptable zk p ->
+    exists q, readFEN zk (toFEN p) = FenOk q /\ normEmpty q = normEmpty (fixupEPSquare zk p).
 Theorem C02_fen_roundtrip_partial : toFEN startPos = startFEN /\ readFEN zk0 (toFEN startPos) = FenOk startPos.
 Proof. exact fen_roundtrip_example. Qed.
 Print Assumptions C02_fen_roundtrip_partial.
